@@ -45,7 +45,7 @@ type env struct {
 	edges []sc
 }
 
-func setup(x *mon.Ctx, nrand int) *env {
+func setup(x *mon.Ctx, nrand int, sparse bool) *env {
 	selfTest(x)
 	cv, ok := sm2ec.P256().(extCurve)
 	if !ok {
@@ -60,7 +60,7 @@ func setup(x *mon.Ctx, nrand int) *env {
 			c.End()
 		}
 	}
-	return &env{x: x, ps: buildPoints(x, nrand), cv: cv, edges: edgeScalars()}
+	return &env{x: x, ps: buildPoints(x, nrand, sparse), cv: cv, edges: edgeScalars()}
 }
 
 // hookPoint loads a reference point into the library's point type through SetBytes.
@@ -331,7 +331,7 @@ func (e *env) scalarCases(yield func(sc scalarCase)) {
 }
 
 func baseMult(x *mon.Ctx) {
-	e := setup(x, 0)
+	e := setup(x, 0, false)
 	e.scalarCases(func(s scalarCase) {
 		c := x.Begin("ScalarBaseMult: %s", s.desc)
 		if c == nil {
@@ -348,7 +348,7 @@ func baseMult(x *mon.Ctx) {
 }
 
 func scalarMult(x *mon.Ctx) {
-	e := setup(x, x.Scale(12, 48))
+	e := setup(x, x.Scale(12, 48), true)
 	all := e.ps.all
 	idx := 0
 	e.scalarCases(func(s scalarCase) {
@@ -397,24 +397,55 @@ func scalarMult(x *mon.Ctx) {
 			c.End()
 		}
 	}
+	// points with sparse coordinates
+	for _, q := range e.ps.sparse {
+		for _, sn := range []string{"2", "33", "random"} {
+			c := x.Begin("ScalarMult: point=%s scalar %s", q.name, sn)
+			if c == nil {
+				continue
+			}
+			c.Class("var-sparse/%s/%s", q.kind, sn)
+			var k *big.Int
+			switch sn {
+			case "2":
+				k = bi(2)
+			case "33":
+				k = bi(33)
+			default:
+				k = new(big.Int).SetBytes(c.R.Bytes(32))
+			}
+			e.checkVar(c, q, k, k.FillBytes(make([]byte, 32)))
+			c.End()
+		}
+	}
 }
 
 // combined: [s1]G + [s2]P including the exceptional final additions.
 func combined(x *mon.Ctx) {
-	e := setup(x, x.Scale(12, 48))
+	e := setup(x, x.Scale(12, 48), true)
 	rels := []string{"equal", "inverse", "generic", "s1=0", "s2=0", "both=0", "s1=n", "s2=n"}
 	s2kinds := []string{"1", "2", "n-1", "random", "random", "edge", "edge", "long"}
 	reps := x.Scale(1, 8)
-	for _, q := range e.ps.all {
+	for _, q := range append(append([]*npoint{}, e.ps.all...), e.ps.sparse...) {
+		sparse := q.kind == "sparse-x" || q.kind == "sparse-y"
 		for _, rel := range rels {
 			if (rel == "equal" || rel == "inverse") && q.k == nil {
 				continue // discrete logarithm unknown: the relation cannot be constructed
+			}
+			if sparse && rel != "generic" && rel != "s1=0" {
+				continue
 			}
 			for ki, s2k := range s2kinds {
 				if rel != "equal" && rel != "inverse" && rel != "generic" && ki > 1 {
 					continue
 				}
+				if sparse && (ki == 0 || ki > 3) {
+					continue
+				}
 				for rep := 0; rep < reps; rep++ {
+					if sparse && rep > 0 {
+						break
+					}
 					c := x.Begin("CombinedMult: P=%s relation=%s s2=%s#%d rep=%d", q.name, rel, s2k, ki, rep)
 					if c == nil {
 						continue
